@@ -5,6 +5,10 @@
 use serde_json::{json, Value};
 use std::collections::HashMap;
 use std::io::Read;
+use std::sync::atomic::{AtomicBool, Ordering};
+
+/// whether small blocks carry their raw bytes in the log (only the C09 runs ask for it: --raw)
+pub static INCLUDE_RAW: AtomicBool = AtomicBool::new(false);
 
 pub struct RawEntry {
     pub off: usize,
@@ -23,6 +27,8 @@ pub struct RawBlock {
     pub entries: Vec<RawEntry>,
     /// bytes of the payload that could not be parsed as entries (0 for a well-formed block)
     pub junk: usize,
+    /// the uncompressed bytes of a small block (TLC parses them itself to cross-check this decoder)
+    pub raw: Vec<u8>,
 }
 
 pub struct RawFile {
@@ -116,6 +122,7 @@ pub fn decode(bytes: &[u8], trailer_len: usize) -> RawFile {
             count: 0,
             entries: Vec::new(),
             junk: 0,
+            raw: if INCLUDE_RAW.load(Ordering::Relaxed) && data.len() <= 1400 { data.clone() } else { Vec::new() },
         };
         if data.len() < 4 {
             f.error = Some(format!("block at {}: shorter than its count field", off));
@@ -188,7 +195,7 @@ pub fn to_json(
             }
             json!({"off": b.off, "stored": b.stored, "usize": b.usize_, "payload": b.payload,
                    "table": b.table, "count": b.count, "keys": keys, "v8": v8, "vm": vm,
-                   "eoffs": eoffs, "esz": esz, "junk": b.junk})
+                   "eoffs": eoffs, "esz": esz, "junk": b.junk, "raw": b.raw})
         })
         .collect();
     json!({"size": f.size, "trailer": f.trailer, "blocks": blocks, "slack": f.slack,
